@@ -39,6 +39,8 @@ def check_schedule(run, sim, params_of, witness, stats):
     nacks = {}
     sess_addr = {}
     ep_addr = {}
+    accepted = []
+    pending_mid = {}
     for ev in sim.log:
         k = ev["e"]
         if k == "bound":
@@ -47,12 +49,28 @@ def check_schedule(run, sim, params_of, witness, stats):
             sess_addr[(ev["n"], ev["sid"])] = (ev["local"], ev["remote"])
         elif k == "event" and ev["code"] == 0x4001:
             sess_addr[(ev["n"], ev["sess"])] = (ep_addr.get(ev["n"]), ev["remote"])
-        elif k == "wire":
+        elif k in ("wire", "wirefail"):
+            # a write the socket refused (failsend) is a transmission the library made at
+            # that instant and the network lost: the schedule runs on from it
             b = bytes.fromhex(ev["b"])
             if len(b) >= 4 and (b[0] >> 6) == 1:
                 typ, code, mid = hdr(b)
                 if typ == 0:
                     tx.setdefault((ev["from"], ev["to"], mid), []).append((ev["t"], b))
+                    if k == "wirefail":
+                        stats["failed_writes"] = stats.get("failed_writes", 0) + 1
+        elif k == "sending":
+            pending_mid[(ev["n"], ev["sess"])] = ev.get("pmid")
+        elif k == "sent":
+            a = sess_addr.get((ev["n"], ev["sess"]))
+            if a:
+                if ev["mid"] >= 0:
+                    accepted.append((a[0], a[1], ev["mid"], ev["t"]))
+                else:
+                    # coap_send() refused the message (its first write failed): it was not
+                    # accepted for sending and nothing more is expected of it
+                    stats["refused_by_api"] = stats.get("refused_by_api", 0) + 1
+                    tx.pop((a[0], a[1], pending_mid.get((ev["n"], ev["sess"]))), None)
         elif k in ("rx",):
             b = bytes.fromhex(ev["b"])
             if len(b) >= 4 and (b[0] >> 6) == 1:
@@ -64,6 +82,19 @@ def check_schedule(run, sim, params_of, witness, stats):
             if a:
                 nacks.setdefault((a[0], a[1], ev["cbmid"]), []).append((ev["t"], ev["reason"]))
     end = sim.now
+    for frm, to, mid, t in accepted:
+        # "every Confirmable message accepted for sending is transmitted": also one that had
+        # to wait for an NSTART slot (the horizon covers every predecessor being given up)
+        if params_of(frm) is None:
+            continue
+        stats["accepted"] = stats.get("accepted", 0) + 1
+        if (frm, to, mid) not in tx:
+            run.violation("accepted-message-never-transmitted",
+                          dict(witness, message={"from": frm, "to": to, "mid": mid}),
+                          "mid %d accepted by coap_send() at %d, not written to the socket by %d"
+                          % (mid, t, end))
+        elif tx[(frm, to, mid)][0][0] > t:
+            stats["parked_then_sent"] = stats.get("parked_then_sent", 0) + 1
     for (frm, to, mid), txs in sorted(tx.items()):
         p = params_of(frm)
         if p is None:
@@ -167,6 +198,14 @@ def scenario_client(exe, r, idx):
     pin = r.choice([0, 255, None])
     nsess = r.choice([1, 1, 2, 3])
     nmsg = r.choice([1, 1, 2, 4])
+    # a third of the runs: fewer NSTART slots than messages, so that some wait in the
+    # session's delay queue and go out when an earlier exchange ends; a quarter: one
+    # datagram write of the node fails (ENOBUFS)
+    nstart = 4
+    if r.random() < 0.33:
+        nstart = r.choice([1, 1, 2])
+        nmsg = r.choice([2, 3, 4, 6])
+    failsend = r.choice([1, 2, 2, 3, 3, 4, 5, 7]) if r.random() < 0.25 else 0
     p = Params(at, arf, mr, pin)
     w = world.World(exe, seed=r.getrandbits(30))
     sim = world.Sim(w, latency=0)
@@ -178,9 +217,11 @@ def scenario_client(exe, r, idx):
         plans = {}
         lo, hi = p.t_bounds()
         tmid = (lo + hi) / 2
+        if failsend:
+            sim.cmd("failsend %d" % failsend)
         for s in range(nsess):
-            sim.cmd("sess 0 %d udp %s ack_timeout_ms=%d arf_milli=%d max_retransmit=%d nstart=4"
-                    % (s, PEER % (s + 1), at, arf, mr))
+            sim.cmd("sess 0 %d udp %s ack_timeout_ms=%d arf_milli=%d max_retransmit=%d nstart=%d"
+                    % (s, PEER % (s + 1), at, arf, mr, nstart))
         msgs = []
         for m in range(nmsg):
             sid = r.randrange(nsess)
@@ -233,8 +274,9 @@ def scenario_client(exe, r, idx):
             sim.call_at(sim.now + submit, lambda sm, sid=sid, tok=tok: sm.cmd(
                 "send 0 %d type=0 code=1 token=%s opts=11=61" % (sid, tok.hex())))
         total = hi * (2 ** (mr + 1)) + 20000
-        sim.run(horizon=int(total) + 600000)
-        sig = ("client", at, arf, mr, pin, nsess,
+        late = max(pl["delay"] for pl in plans.values())
+        sim.run(horizon=int(total + late) * (nmsg if nstart < 4 else 1) + 600000)
+        sig = ("client", at, arf, mr, pin, nsess, nstart, failsend,
                tuple(sorted((pl["kind"], pl["k"], pl["dchoice"]) for pl in plans.values())),
                sim.timers_first)
         return sim, w, (lambda a: p if a.startswith("10.0.0.") else None), sig
@@ -363,7 +405,9 @@ def main(tier):
                 "duplicate-answer plans at the k-th transmission and delays 0, 1, mid-gap, "
                 "deadline-1/deadline/deadline+1, late; ACK_TIMEOUT (1 s .. 1000 s) x ACK_RANDOM_FACTOR x "
                 "MAX_RETRANSMIT x jitter draw pinned 0/255/seeded; 1-3 sessions, up to 4 "
-                "messages sharing one send queue; both tie-break orders; (b) server separate CON "
+                "messages sharing one send queue, a third of the runs with NSTART 1-2 and up to "
+                "6 messages (some wait for a slot), a quarter with one failed datagram write "
+                "(ENOBUFS) which counts as a transmission made and lost; both tie-break orders; (b) server separate CON "
                 "responses incl. answers from a stranger address; (c) every drop subset of the "
                 "first N datagrams between two libcoap nodes; distinct_nontrivial = distinct "
                 "scenario signatures (parameters, plan, drop set)")
@@ -400,4 +444,6 @@ def main(tier):
     run.require("given_up", stats.get("given_up", 0), 30)
     run.require("ended_by_ack", stats.get("ended_by_ack", 0), 50)
     run.require("ended_by_rst", stats.get("ended_by_rst", 0), 20)
+    run.require("parked_then_sent", stats.get("parked_then_sent", 0), 50)
+    run.require("failed_writes", stats.get("failed_writes", 0), 50)
     return run.finish()
